@@ -95,10 +95,17 @@ var concurrentCheck = &core.Check{Name: "c03/concurrent", Quick: 2, Thorough: 20
 		}
 		out := reflect.New(it.t)
 		var dec error
-		if r%2 == 0 {
+		// every goroutine makes its own decoder; the configurations take turns (the values hold library cells in
+		// raw-cell fields only, so a resolver changes nothing)
+		switch r % 4 {
+		case 0:
 			dec = tlb.Unmarshal(roots[0], out.Interface())
-		} else {
+		case 1:
 			dec = tlb.NewDecoder().Unmarshal(roots[0], out.Interface())
+		case 2:
+			dec = newDecoder(decDebugResolver).Unmarshal(roots[0], out.Interface())
+		default:
+			dec = newDecoder(decNotFound).Unmarshal(roots[0], out.Interface())
 		}
 		if dec != nil {
 			return fmt.Errorf("%s: Unmarshal fails (%v) on an encoding that decoded on one goroutine", name, dec)
